@@ -119,6 +119,32 @@ func GenFedInput(c *Ctx, i int, forC string) (FedInput, map[string]bool) {
 	if in.OddIDs {
 		feats["odd-ids"] = true
 	}
+	if r.Intn(10) == 0 {
+		// ONE named fragment spread at two places (the same step, or different steps), with the service boundary at its
+		// top level, beneath one of its fields, inside a nested inline fragment or inside a second fragment
+		sites := []string{
+			`a: user(id: "u1") { ...F } b: user(id: "u2") { ...F }`,
+			`me { friends { ...F } favorite { owner { ...F } } }`,
+			`allUsers { ...F friends { ...F } }`,
+			`me { ...F } allUsers { ...F }`,
+			`topPhoto { owner { ...F } likedBy { ...F } }`,
+		}
+		bodies := []string{
+			`fragment F on User { firstName friends { firstName lastName } }`,
+			`fragment F on User { firstName ... on User { lastName photos { url likes } } }`,
+			`fragment F on User { nick favorite { url likes owner { firstName nick } } }`,
+			`fragment F on User { firstName lastName }`,
+			`fragment F on User { firstName ...G } fragment G on User { photos { url likes } lastName }`,
+			`fragment F on User { x1: firstName pet { name ... on Cat { lives toys } ... on Dog { barks } } }`,
+		}
+		in.Query = "{ " + sites[r.Intn(len(sites))] + " } " + bodies[r.Intn(len(bodies))]
+		in.Vars = nil
+		if r.Intn(2) == 0 {
+			in.Spec = []FedSpec{FixedFed(), FixedFed2(), FixedFed3()}[r.Intn(3)]
+			spec = in.Spec
+		}
+		feats = map[string]bool{"fragment-spread-at-two-places": true}
+	}
 	feats[fmt.Sprintf("services-%d", len(spec.Order))] = true
 	return in, feats
 }
